@@ -74,6 +74,11 @@ Theorem C12_unregistered_refused_without_effect_partial : forall c s o,
 Proof. exact unregistered_refused_partial. Qed.
 Print Assumptions C12_unregistered_refused_without_effect_partial.
 
+(* the same shape as the full statement, restricted to add and request *)
+Theorem C12_unregistered_refused_without_effect_gated : unregistered_refused_stmt true.
+Proof. exact unregistered_refused_gated. Qed.
+Print Assumptions C12_unregistered_refused_without_effect_gated.
+
 Theorem C12_unregistered_refused_without_effect_refuted : ~ C12_unregistered_refused_without_effect_full.
 Proof. exact unregistered_refused_refuted. Qed.
 Print Assumptions C12_unregistered_refused_without_effect_refuted.
